@@ -42,6 +42,25 @@ def norm(x, chunks=False):
     return "object:" + type(x).__name__
 
 
+def norm_falsy(x):
+    """decoding for the 'falsy' spelling of a sequence: None stands for 0, and the falsy-but-not-None values 0 / '' / False
+    stand for 2 (they must be kept as ordinary elements wherever only None is special)"""
+    if isinstance(x, tuple) and not x:
+        return 2
+    if isinstance(x, (list, tuple)):
+        return [norm_falsy(e) for e in x]
+    if x is None:
+        return 0
+    if x == 1 and x is not True:
+        return 1
+    if x in (0, "", False) or x == ():
+        return 2
+    return "object:" + repr(x)
+
+
+FALSY = [0, "", False, ()]
+
+
 def norm_chunk(c):
     if isinstance(c, str):
         return [RCH.get(ch, -999) for ch in c]
@@ -122,6 +141,12 @@ def run_row(row):
                 chk("split_iter/%s/sep=%s" % (name, sname), lambda: list(it.split_iter(mk(), sv, msa)))
                 if ms == -1:
                     chk("split(no maxsplit)/%s/sep=%s" % (name, sname), lambda: it.split(mk(), sv))
+        if sep == 0:
+            # only None separates: other falsy elements (0, '', False, ()) standing where the model has 2 are kept
+            for fi, fv in enumerate(FALSY):
+                base2 = [None if e == 0 else (fv if e == 2 else e) for e in s]
+                chk("split/list-with-falsy-%d/sep=None" % fi, lambda: it.split(list(base2), None, msa), post=norm_falsy)
+                chk("split_iter/gen-with-falsy-%d/sep=None" % fi, lambda: list(it.split_iter((e for e in base2), None, msa)), post=norm_falsy)
     elif f in ("lstrip", "rstrip", "strip"):
         for name, mk in forms(s):
             if name == "bytes":
@@ -131,6 +156,10 @@ def run_row(row):
             chk(f + "_iter/" + name, lambda: list(getattr(it, f + "_iter")(mk(), zero)))
         base = [None if e == 0 else e for e in s]
         chk(f + "/default-None", lambda: getattr(it, f)(list(base)))
+        for fi, fv in enumerate(FALSY):
+            base2 = [None if e == 0 else (fv if e == 2 else e) for e in s]
+            chk(f + "/default-None/falsy-%d" % fi, lambda: getattr(it, f)(list(base2)), post=norm_falsy)
+            chk(f + "_iter/default-None/falsy-%d" % fi, lambda: list(getattr(it, f + "_iter")(iter(base2))), post=norm_falsy)
     elif f in ("unique", "redundant", "redundant_groups"):
         kf = row["kf"]
         for name, mk in forms(s, allow_str=(kf == 0)):
